@@ -112,7 +112,11 @@ func genHostResult(t *sim.Tape, name string, base time.Time) *results.Result {
 func genScript(t *sim.Tape) ([]simnet.Attempt, string) {
 	delay := func() time.Duration { return time.Duration(t.Draw(5)) * 300 * time.Millisecond }
 	ok := simnet.Attempt{Kind: "ok", Delay: delay()}
-	switch t.Draw(9) {
+	switch t.Draw(11) {
+	case 9: // answers 200 with a body that is not a result (cut off mid-object), every time
+		return []simnet.Attempt{{Kind: "garbage", Delay: delay()}}, "error"
+	case 10: // the connection breaks while the body is being read, every time
+		return []simnet.Attempt{{Kind: "cutbody", Delay: delay()}}, "error"
 	case 0, 1, 2, 3:
 		return []simnet.Attempt{ok}, "ok"
 	case 4: // lost connection, then fine (client retries after 1 s)
